@@ -47,7 +47,11 @@ fn run(loc: &Locator, input: &str, memo: bool) -> (u64, usize, String, String, u
             for node in root.descendants() {
                 if matches!(node.syntax().trunk(), oal_model::grammar::SyntaxTrunk::Leaf(_)) {
                     leaves += 1;
-                    let sp = node.span().unwrap();
+                    // the token's own span, not NodeRef::span (which is what is being checked)
+                    let sp = node.token().span();
+                    if node.span().map(|n| (n.start(), n.end())) != Some((sp.start(), sp.end())) {
+                        spans_ok = false;
+                    }
                     if sp.start() < last_end || sp.end() > input.len() || !input.is_char_boundary(sp.start()) || !input.is_char_boundary(sp.end()) {
                         leaves_ok = false;
                     }
@@ -60,7 +64,7 @@ fn run(loc: &Locator, input: &str, memo: bool) -> (u64, usize, String, String, u
                     let (mut lo, mut hi) = (usize::MAX, 0usize);
                     for d in node.descendants() {
                         if matches!(d.syntax().trunk(), oal_model::grammar::SyntaxTrunk::Leaf(_)) {
-                            let l = d.span().unwrap();
+                            let l = d.token().span();
                             lo = lo.min(l.start());
                             hi = hi.max(l.end());
                         }
